@@ -8,10 +8,13 @@
 (***************************************************************************)
 EXTENDS SyntaxRich, Json
 
-CONSTANT Deep   \* 2: T1all + T2;  3: also T3
+CONSTANTS Deep,      \* 2: T1all + T2;  3: also T3
+          SpineLen   \* right spines of up to this many operators ending in an open-ended construct
+SpineOps  == IF Deep >= 3 THEN {"nand", "via", "eq", "add", "mul", "pow", "coalesce"} ELSE {"nand", "via", "add", "mul"}
+FollowOps == IF Deep >= 3 THEN RepOps ELSE {"sub", "via", "pow"}
 
 VARIABLE t
-Init == t \in T1all \cup T2 \cup (IF Deep >= 3 THEN T3 ELSE {})
+Init == t \in T1all \cup T2 \cup (IF Deep >= 3 THEN T3 ELSE {}) \cup Spines(SpineLen, SpineOps, FollowOps)
 Next == UNCHANGED t
 Spec == Init /\ [][Next]_t
 
